@@ -93,6 +93,13 @@ def norm_cond(o, pol=True):
 
 
 def _cmp(op, a, b, pol):
+    # `p == false`, `p != true`, .. : a comparison of a boolean with a constant is that boolean (or its negation)
+    if op in ("eq", "ne"):
+        for x, y in ((a, b), (b, a)):
+            c = peel(y)
+            if c[0] == "const" and c[1] == "bool":
+                same = bool(c[2]) == (op == "eq")
+                return norm_cond(x, pol if same else not pol)
     a, b = deep_peel(a), deep_peel(b)
     if op == "ne":
         return ("eq", _sym(a, b), not pol)
